@@ -72,7 +72,7 @@ pub fn etags() -> Vec<Option<Vec<u8>>> {
 /// the empty tag, obs-text, a long one; plus weak forms.
 pub fn etags_rich() -> Vec<Option<Vec<u8>>> {
     let mut v: Vec<Option<Vec<u8>>> = vec![None];
-    for t in [&b"\"v1\""[..], b"W/\"v1\"", b"\"a, b\"", b"\"1,234\"", b"\"\"", b"\"*\"", b"\"x;q=0\"", b"\"W/\"", b"\"back\\slash\"", b"\"v1-caf\xc3\xa9\xff\"", b"W/\"a, b\""] {
+    for t in [&b"\"v1\""[..], b"W/\"v1\"", b"\"a, b\"", b"\"1,234\"", b"\"\"", b"\"*\"", b"\"x;q=0\"", b"\"W/\"", b"\"back\\slash\"", b"\"C:\\data\\\"", b"\"\\\"", b"\"v1-caf\xc3\xa9\xff\"", b"W/\"a, b\""] {
         v.push(Some(t.to_vec()));
     }
     v.push(Some(format!("\"{}\"", "t".repeat(300)).into_bytes()));
